@@ -106,7 +106,9 @@ func scribble(v interface{}) {
 	case []interface{}:
 		for i, e := range x {
 			scribble(e)
-			if _, isScalar := e.(string); isScalar {
+			switch e.(type) {
+			case map[string]interface{}, []interface{}:
+			default:
 				x[i] = "__scribble__"
 			}
 		}
@@ -208,6 +210,7 @@ func c17Gen(r *Rng, n int) []string {
 		cfg := jsonShape
 		cfg.Keys = keyAlpha
 		cfg.WideP = 1
+		cfg.ListInList = r.P(40)
 		m := r.RootMap(&cfg)
 		path := r.DerivedPath(m, true, 3)
 		var subs []string
